@@ -160,6 +160,25 @@ def run(ctx):
             ka, kb = rng.choice([(2, 2), (2, 2), (3, 2), (2, 3), (1, 2), (1, 1)])
             pens = [-1, -1, -1]
             threads = rng.choice([2, 4, 8, 16])
+            if i % 3 == 0:
+                # two levels of the task-parallel controller (>= 1002 positions on the shorter side) with an indel lying across the middle row
+                # of the first split: the boundary states handed to the sub-problems are then gap states
+                # (protein only: on 4-letter alphabets a gap can almost always slide by a column, so the optimum is not certifiably unique)
+                kind, t = "protein", rng.choice([3, 4])
+                alpha = gen.AA
+                n = rng.choice([1040, 1200, 1300])
+                a = list(gen.rand_seq(rng, alpha, n))
+                L = rng.choice([8, 20, 40])
+                pos = n // 2 - L // 2 + rng.randint(-3, 3)
+                # flanks that make the position of the indel unambiguous
+                a[pos - 1], a[pos], a[pos + L - 1], a[pos + L] = "W", "C", "G", "P"
+                a = "".join(a)
+                core = "".join(ch if (rng.random() > 0.04 or abs(k - pos) < 6 or abs(k - pos - L) < 6) else rng.choice(alpha) for k, ch in enumerate(a))
+                b = core[:pos] + core[pos + L:]
+                if rng.random() < 0.5:
+                    a, b = b, a
+                ka, kb = rng.choice([(1, 1), (1, 1), (2, 1), (2, 2)])
+                threads = rng.choice([1, 4])
         todo.append(dict(kind=kind, a=a, b=b, t=t, pens=pens, ka=ka, kb=kb, bt=0 if kind == "protein" else 1, threads=threads))
     conv = []
     for d in todo:
